@@ -99,8 +99,9 @@ def status (env : Env Oid) (store : List Oid) (index : Option (RIndex Oid)) (sha
     match index with
     | some idx =>
       if hashes.isEmpty then .ok { exist := [], missing := [], index := some idx } else
+      -- the index is validated whether or not the request names a directory (repaired: a request of files only used to
+      -- skip the validation and trust a stale index)
       let (ex1, idx1, rest1) :=
-        if dirObjs.isEmpty then (([] : List Oid), idx, hashes) else
           let (assumed, idx') := indexedDirHashes env store idx dirObjs
           let ex := inter hashes assumed
           (ex, idx', diff hashes ex)
